@@ -50,6 +50,11 @@ def run(ctx, res):
     for h in range(ctx.budget(60, 800)):
         n = rng.choice([1, 5, 30, 200, 1500, 5000]) if h % 7 == 0 else rng.choice([1, 5, 30, 200])
         ins = gen_history(rng, n, reserved)
+        if 3 <= h < 6:
+            # several passes in one process that each need far more than 26*26 generated names
+            ins = [b'n%d_%d' % (h, k) for k in range(rng.choice([700, 1500, 2100]))]
+            rng.shuffle(ins)
+            ins = ins + ins[:50]
         if h < 3:
             # every API name and keyword-like name once, among ordinary names
             ins = sorted(api | keywords) + gen_history(rng, 40, reserved)
